@@ -1,12 +1,15 @@
 #!/bin/bash
-# usage: seed_eval.sh <patch.diff> <check ids...> -- applies the patch to /repo, runs the quick checks, reverts.
+# usage: seed_eval.sh <patch.diff> <check ids...>
+# Applies the patch to a scratch worktree of /repo's HEAD (never to /repo itself, so registered
+# runs are not disturbed), runs the checks against it (VERIF_REPO) with evidence and replays
+# written to a scratch output directory (VERIF_OUT), removes both.
 P=$1; shift
 cd /verif
 case "$P" in /*) ;; *) P="/verif/$P";; esac
-[ -z "$(git -C /repo status --porcelain)" ] || { echo "/repo is not clean: refusing (another evaluation running?)"; exit 2; }
-git -C /repo apply "$P" || { echo "patch does not apply"; exit 2; }
+W=$(mktemp -d /tmp/seedeval.XXXXXX)
+git -C /repo worktree add --detach -q "$W/repo" HEAD || exit 2
+trap 'git -C /repo worktree remove --force "$W/repo" 2>/dev/null; rm -rf "$W"' EXIT
+git -C "$W/repo" apply "$P" || { echo "patch does not apply"; exit 2; }
 for id in "$@"; do
-  echo "== $id"; timeout 1500 ./bin/kv check $id --tier ${TIER:-quick} 2>&1 | grep -v "^  signature\|^KNOWN-FINDING" | tail -${LINES_OUT:-6} | cut -c1-400; echo "exit=${PIPESTATUS[0]}"
+  echo "== $id"; VERIF_REPO="$W/repo" VERIF_OUT="$W/out" timeout 3000 ./bin/kv check $id --tier ${TIER:-quick} 2>&1 | grep -v "^  signature\|^KNOWN-FINDING" | tail -${LINES_OUT:-6} | cut -c1-400; echo "exit=${PIPESTATUS[0]}"
 done
-git -C /repo checkout -- .
-git -C /repo status --short
